@@ -166,6 +166,10 @@ def generate(rng, tier):
     if rng.random() < 0.8:
         ops.append({"op": "brighter", "seed": rng.getrandbits(32),
                     "kind": rng.choice(["uniform", "sparse", "cross", "tiny", "huge"])})
+    if rng.random() < 0.5:
+        # the same image once more on the same Detector object, same draws: a
+        # detector that keeps state between exposures shows up here
+        ops.insert(rng.randint(1, len(ops)), {"op": "again"})
     for _ in range(rng.randint(0, 3)):
         c = rng.random()
         if c < 0.5:
@@ -174,7 +178,8 @@ def generate(rng, tier):
                         "src": rng.choice(["float", "float", "dn", "dn", "bool"])})
         else:
             ops.append({"op": "bayer", "cfa": rng.choice(["rggb", "bggr"]), "as_int": rng.random() < 0.5})
-    return {"prop": PROP, "tier": tier, "config": {"mode": mode, "rng_seed": rng.getrandbits(48)},
+    return {"prop": PROP, "tier": tier, "config": {"mode": mode, "rng_seed": rng.getrandbits(48),
+                                                    "reuse_detector": rng.random() < 0.6},
             "det": det, "img": img, "ops": ops}
 
 
@@ -292,9 +297,16 @@ def execute(plan):
             bump(probes, nm)
     bump(probes, f"bits_{bits}" if bits in (1, 8, 16, 32) else "bits_other")
 
+    shared = {"det": None}
+
     def expose(image, coupled):
         sim.begin_exposure(coupled_to_previous=coupled)
-        det = make_det()
+        if cfg.get("reuse_detector"):
+            if shared["det"] is None:
+                shared["det"] = make_det()
+            det = shared["det"]
+        else:
+            det = make_det()
         return det.expose(image.copy(), frames=d["frames"])
 
     def check_frame(dn, image, stage):
@@ -359,6 +371,26 @@ def execute(plan):
                 bump(probes, "rng_seam_bypassed")
             if ok:
                 frame_f = dn1.astype(np.float64)
+        elif k == "again":
+            if dn1 is None:
+                ev["out"] = "skip"
+                events.append(ev)
+                continue
+            try:
+                dn3 = np.asarray(expose(img, True))
+            except Exception as e:
+                ev["out"] = "raised:" + type(e).__name__
+                viol("raised", "again", exc=type(e).__name__, msg=str(e)[:160])
+                events.append(ev)
+                continue
+            ev["out"] = "ok"
+            ev["fp"] = core.fp_array(dn3)
+            check_frame(dn3, img, "again")
+            if mode in ("off", "coupled", "tails") and sim.total_calls > 0:
+                if dn3.shape != dn1.shape or not np.array_equal(dn3, dn1):
+                    viol("dn-repeatable", "again", note="same image, same draws, same detector: different frame",
+                         reuse=bool(cfg.get("reuse_detector")))
+                bump(probes, "repeat_exposures_compared")
         elif k == "brighter":
             if dn1 is None:
                 ev["out"] = "skip"
@@ -535,6 +567,11 @@ def _bayer(np, B, mos, cfa, viol, bump, probes):
                                   np.asarray(b).copy(), cfa)
         if not np.array_equal(np.asarray(rec), mos):
             viol("bayer-roundtrip", "recomposite", cfa=cfa)
+        buf = np.zeros_like(mos)
+        rec2 = B.recomposite_bayer(np.asarray(r).copy(), np.asarray(g1).copy(), np.asarray(g2).copy(),
+                                   np.asarray(b).copy(), cfa, output=buf)
+        if not (np.array_equal(np.asarray(rec2), mos) and np.array_equal(buf, mos)):
+            viol("bayer-roundtrip", "recomposite-output-arg", cfa=cfa)
         de = np.asarray(B.demosaic_deinterlace(mos, cfa))
         if de.shape != (mos.shape[0] // 2, mos.shape[1] // 2, 3):
             viol("bayer-native-sites", "deinterlace", note="shape", cfa=cfa)
@@ -556,6 +593,11 @@ def _bayer(np, B, mos, cfa, viol, bump, probes):
                                                 mal[..., 2].copy(), cfa))
             if not np.array_equal(comp, mf):
                 viol("bayer-native-sites", "composite", cfa=cfa)
+            buf = np.full_like(mf, -1.0)
+            comp2 = B.composite_bayer(mal[..., 0].copy(), mal[..., 1].copy(), mal[..., 1].copy(),
+                                      mal[..., 2].copy(), cfa, output=buf)
+            if not (np.array_equal(np.asarray(comp2), mf) and np.array_equal(buf, mf)):
+                viol("bayer-native-sites", "composite-output-arg", cfa=cfa)
         bump(probes, f"bayer_{cfa}")
     except Exception as e:
         viol("raised", "bayer", exc=type(e).__name__, msg=str(e)[:160], cfa=cfa)
@@ -613,5 +655,5 @@ COMPONENTS = {
              "delegates to a seeded numpy RandomState)"],
 }
 
-EXPECTED_PROBES = ["c_eq_cap", "c_eq_cap_plus_1", "bits_1", "bits_8", "bits_16", "bits_32", "monotone_pairs_compared",
+EXPECTED_PROBES = ["repeat_exposures_compared", "c_eq_cap", "c_eq_cap_plus_1", "bits_1", "bits_8", "bits_16", "bits_32", "monotone_pairs_compared",
                    "bin_tile_checked", "bin_nd_stack", "bayer_rggb", "bayer_bggr"]
